@@ -1,5 +1,6 @@
 import Csproto.Props.C01
 import Csproto.Bridge.Facts
+import Csproto.Bridge.WireFuncs
 /- axiom audit for C01: parsed by ./check; every line must list only propext / Classical.choice / Quot.sound -/
 open Csproto
 #print axioms C01.sizeOfVarint_exact
@@ -25,3 +26,12 @@ open Csproto
 #print axioms Bridge.encodeZigZag64_src
 #print axioms Bridge.decodeZigZag32_src
 #print axioms Bridge.decodeZigZag64_src
+
+-- the wire primitives TRANSLATED from the Go source (Generated/WireFuncs.lean) compute what the model says
+#print axioms Csproto.Bridge.WireFuncs.EncodeVarint_ok
+#print axioms Csproto.Bridge.WireFuncs.EncodeVarint_short
+#print axioms Csproto.Bridge.WireFuncs.DecodeVarint_eq
+#print axioms Csproto.Bridge.WireFuncs.DecodeFixed32_ok
+#print axioms Csproto.Bridge.WireFuncs.DecodeFixed32_short
+#print axioms Csproto.Bridge.WireFuncs.DecodeFixed64_ok
+#print axioms Csproto.Bridge.WireFuncs.DecodeFixed64_short
